@@ -161,11 +161,17 @@ class JumpToStageHandler(StabilizeHandler[JumpToStage]):
             # completed or re-armed by another jump meanwhile, and applying the jump
             # would overwrite a finished status (CANCELED -> SUCCEEDED) or resurrect
             # a canceled workflow.
-            if source_stage.status != WorkflowStatus.RUNNING:
+            # The same holds once a cancel has been accepted: the source stage may
+            # still be RUNNING only because its CancelStage has not been handled yet.
+            # Applying the jump would complete it SUCCEEDED (forward) or reset
+            # already-canceled stages to NOT_STARTED (backward), and nothing would
+            # ever cancel them again.
+            if source_stage.status != WorkflowStatus.RUNNING or execution.is_canceled:
                 logger.warning(
-                    "Ignoring stale JumpToStage from %s (status %s) to %s",
+                    "Ignoring stale JumpToStage from %s (status %s, canceled=%s) to %s",
                     source_stage.ref_id,
                     source_stage.status,
+                    execution.is_canceled,
                     message.target_stage_ref_id,
                 )
                 if message.message_id:
